@@ -209,9 +209,11 @@ class PreserveSurface(core.Surface):
 
     def agree(self, x, i, m):
         if i[0] != "OK":
-            # parse / resolve / expand_actions raising on the template is the subject of C05 / C19, not of class preservation; the
-            # generator keeps such templates rare and they are counted under outcome:<error kind>
-            return True
+            # every generated template of this surface is valid (resources built from the live schema, functions only where text is
+            # expected): resolve() / expand_actions() raising means the classes were NOT preserved.  (This used to be forgiven as
+            # "C05's subject"; seeded change C14-r4m1 -- TypeError for a resource whose logical id is spelled like a function --
+            # showed that it hides real class-preservation failures.)
+            return False
         iv, mv = i[1], m[1]
         if iv["before"] != mv["before"] or iv["expand"] != mv["expand"]:
             return False
@@ -329,6 +331,14 @@ def gen_preserve_case(rng, tricky=False):
                           "Properties": rng.choice([{"BucketName": "b"}, {"Foo": "x"}, {}, {}])}
         if rng.random() < 0.8:
             extra["/t:1"] = rng.choice(["AWS::S3::Bucket", "AWS::IAM::User", "AWS::IAM::Group", "AWS::KMS::Key"] + types + ["Custom::Other", "x"])
+    if rng.random() < 0.25:
+        # logical ids are free text: one spelled like an intrinsic function or a section name, alone or among others
+        keep = rng.choice(list(resources))
+        odd = rng.choice(["Ref", "Condition", "Type", "Properties", "Resources", "GETATT"])
+        if rng.random() < 0.5:
+            resources = {odd: resources[keep]}
+        else:
+            resources[odd] = resources.pop(keep)
     template = {"Resources": resources, "Parameters": {"P1": {"Type": "String", "Default": "pv"}},
                 "Conditions": {"C1": {"Fn::Equals": ["a", "a"]}}, "Mappings": {"M": {"k1": {"s": "v"}}}}
     return PRESERVE, {"template": template, "extra": extra}
